@@ -124,6 +124,19 @@ package net
 //@   trusted
 //@   pure
 
+// The consumer goroutine started by AddHandler calls the consumer and nothing else: in particular
+// not the close callback, which runs exactly once, under the table lock, when the handler leaves
+// the table (a second dynamic call in this loop is a failing obligation).
+//@ func (e *endPoint) AddHandler$1()
+//@   tags C17
+//@   opt recv_nonnil yes
+//@   requires ch != nil && c != nil
+//@   modifies everything
+//@   call dyn#2: assert[C17] false
+//@   call dyn#3: assert[C17] false
+//@   loop 1:
+//@     invariant ch != nil && c != nil
+
 // Table invariant: a live slot holds an open, never-closed handler that knows its slot; so do its
 // queue (hence distinct slots hold distinct handlers with distinct queues).
 //@ guarded_by (e *endPoint) e.handlersMutex: e.handlers, e.handlers[*]
